@@ -295,23 +295,34 @@ func (h *hist) update(off int64, w float64) {
 			if math.IsNaN(fr) || math.IsInf(fr, 0) {
 				fail("C19:adjust-frequency", "Adjust with a non-finite frequency", map[string]any{"frequency": bits(fr)})
 			}
-			if !h.monotone {
-				c.Count("adjust:after-decreased-reading")
+			gapOK := gap.Sign() >= 0 // this reading is not before the previous one
+			if !gapOK {
+				c.Count("adjust:reading-decreased")
 			}
-			if !h.monotone {
+			if !gapOK {
 			} else if D.Cmp(big.NewInt(9223372036)) <= 0 {
 				if d <= 0 {
 					fail("C19:adjust-duration", "Adjust with a duration <= 0", map[string]any{"duration": d, "ceil_dt": D.String()})
 				}
-				wantD := new(big.Int).Mul(D, bigSec)
-				diff := new(big.Int).Sub(big.NewInt(d), wantD)
-				if diff.CmpAbs(big.NewInt(1024)) > 0 {
+				// d = ceil of the float64 dt, which is floor(gap) or ceil(gap) whole seconds
+				// (dt = float64(sec) + float64(nsec)/1e9 may round down to sec for gaps > 2^24 s)
+				lo := new(big.Int).Div(gap, bigSec)
+				if lo.Sign() == 0 {
+					lo.SetInt64(1)
+				}
+				lo.Mul(lo, bigSec)
+				hi := new(big.Int).Mul(D, bigSec)
+				db := big.NewInt(d)
+				if new(big.Int).Sub(db, lo).Cmp(big.NewInt(-1024)) < 0 || new(big.Int).Sub(db, hi).Cmp(big.NewInt(1024)) > 0 {
 					fail("C19:adjust-duration-value", "Adjust duration is not ceil(dt) seconds", map[string]any{"duration": d, "ceil_dt": D.String()})
+				}
+				if lo.Cmp(hi) < 0 && new(big.Int).Sub(db, lo).CmpAbs(big.NewInt(1024)) <= 0 {
+					c.Count("adjust:float-ceil-below-true-ceil")
 				}
 			} else {
 				c.Count("adjust:duration-outside-assumed-range")
 			}
-			if !h.monotone {
+			if !gapOK {
 			} else if D.Cmp(big.NewInt(slewCheckedMaxD)) <= 0 {
 				lim := new(big.Int).Mul(D, big.NewInt(500000))
 				if new(big.Int).Abs(big.NewInt(o)).Cmp(lim) > 0 {
@@ -396,6 +407,8 @@ func genGap(r *lib.Rand, style int) int64 {
 		return r.Range(0, 70)*1e9 + r.Range(-2, 2)
 	case k < 30:
 		return r.Range(1, 999999999)
+	case k < 31 && style == 2: // months..centuries plus a few ns: float64 dt rounds down to whole seconds
+		return r.Range(1<<24, 7900000000)*1e9 + r.Range(0, 3)
 	case k < 33: // long gaps: hours .. days (math.Pow underflows to 0 from ~8.6 days on)
 		return r.Range(3600, 30*86400) * 1e9
 	case k < 34 && style == 2: // years
@@ -511,6 +524,53 @@ func gen(c *lib.Ctx) {
 		h.update(0, 10)
 		h.advance(g)
 		h.update(math.MinInt64, 10)
+	}
+
+	// boundary stream: every comparison of Pll.Do at / just below / just above its threshold
+	w3 := []float64{ulpDown(3), 3, ulpUp(3), 1000}
+	offs := []int64{1e6 - 1, 1e6, 1e6 + 1, -1e6 + 1, -1e6, -1e6 - 1, math.MinInt64, math.MaxInt64}
+	for _, d2 := range []int64{-1, 0, 1} {
+		for _, w := range w3 {
+			for _, off := range offs {
+				c.Count("boundary:step-phase")
+				h := newHist(c, 1700000000, 999999999, 3)
+				h.update(off, w)
+				h.advance(2e9 + d2)
+				h.update(off, w)
+				h.advance(1)
+				h.update(off, w)
+				h.advance(1)
+				h.update(off, 4)
+			}
+		}
+	}
+	for _, d6 := range []int64{-1, 0, 1} {
+		for _, d300 := range []int64{-1, 0, 1} {
+			for _, w := range []float64{ulpDown(50), 50, ulpUp(50), ulpDown(150), 150, ulpUp(150), 1000, math.NaN(), math.Inf(1)} {
+				c.Count("boundary:pll-wait,capture-time,weights")
+				h := newHist(c, -5, 0, 0)
+				h.update(0, 10)
+				h.advance(2e9 + 1)
+				h.update(7e6, 10) // step
+				h.advance(6e9 + d6)
+				h.update(0, 10)
+				h.advance(1)
+				h.update(0, 10) // tracking from here (or from the previous update)
+				_, _, t0, _, _, _, _ := pll.VerifState()
+				target := nsOf(t0.Unix(), int64(t0.Nanosecond()))
+				target.Add(target, big.NewInt(300e9+d300))
+				h.advance(new(big.Int).Sub(target, nsOf(h.sec, h.ns)).Int64())
+				h.update(-2e6, w) // mdt = captureTime + d300
+				h.advance(1e9 - 1)
+				h.update(2e6, w)
+				h.advance(1e9)
+				h.update(2e6, w)
+				h.advance(1e9 + 1)
+				h.update(-3e9, w)
+				h.advance(0)
+				h.update(5, w) // equal reading: d = 0, no Adjust
+			}
+		}
 	}
 
 	n := c.Scale(260, 4000)
